@@ -28,6 +28,7 @@ typedef struct vf_rec_s {
 } vf_rec_t;
 
 extern int vf_ts;                       /* tile size in int64 elements */
+extern int vf_mb;                       /* region mode (C18): > 0 = tiles are vf_mb x vf_mb int64 column-major, vf_ts == vf_mb*vf_mb; 0 = off */
 extern int vf_nk;                       /* number of keys of the collection */
 extern int vf_world, vf_rank;
 extern parsec_datatype_t vf_tile_dtt;
@@ -47,6 +48,11 @@ void      vf_e1_maybe_sleep(vf_rec_t *r);
 /* read the tag of a tile (element 0) and verify the whole tile; ptr NULL -> -1 */
 int64_t   vf_e1_read(const void *ptr, vf_rec_t *r, int flow);
 void      vf_e1_write(void *ptr, int64_t v);
+/* region mode (only when vf_mb > 0; used by programs with typed dependencies, C18): returns element (0,0) (on the diagonal, hence
+ * part of the full, lower and upper selections) and logs, separately for the strictly-lower, diagonal and strictly-upper
+ * partitions of the tile, the tag carried by the partition and whether all its elements are consistent with it.  Never sets
+ * tile_bad: which partitions are judged is decided offline from the declared types.  kind 0 = input at entry, 1 = after write. */
+int64_t   vf_e1_read_reg(const void *ptr, vf_rec_t *r, int flow, int kind);
 /* completion callbacks / scenario stamps */
 void      vf_e1_mark(int kind, int a, int b);
 
